@@ -97,3 +97,41 @@ Proof.
   unfold t_recv. intros H1 H2 H. eapply tcp_loop_gate in H; [exact H|].
   cbn [t_buf]. rewrite wfb_app, H1, H2. reflexivity.
 Qed.
+
+(* every delivered PDU is one the decoder turned into a message *)
+Lemma tcp_loop_msgs dec units single : forall fuel st st' ds o,
+  t_loop base tcp dec fuel units single st = (st', ds, o) ->
+  Forall (fun d => is_msg (dec (d_pdu d)) = true) ds.
+Proof.
+  induction fuel as [|fuel IH]; intros st st' ds o H.
+  - cbn in H. injection H as _ <- _. constructor.
+  - cbn [t_loop] in H. destruct (t_isready tcp st); [|injection H as _ <- _; constructor].
+    destruct (t_check tcp st) as [[st1 ok]|x]; [|injection H as _ <- _; constructor].
+    destruct ok.
+    + destruct (validate_unit base units single (Some (h_uid (t_hdr st1)))) as [[|]|x].
+      * unfold t_process in H. cbv beta iota zeta in H.
+        destruct (dec (t_getframe tcp st1)) as [fc| |x] eqn:Hd; try (injection H as _ <- _; constructor).
+        cbn [andb] in H.
+        destruct (t_loop base tcp dec fuel units single (t_advance tcp st1)) as [[s2 d2] o2] eqn:Er.
+        cbn [cons_d] in H. injection H as _ <- _. constructor.
+        -- rewrite deliv_eq. cbn [d_pdu]. now rewrite Hd.
+        -- apply (IH _ _ _ _ Er).
+      * apply (IH _ _ _ _ H).
+      * injection H as _ <- _. constructor.
+    + destruct (beval (tenv tcp st1) (t_wait tcp)); [injection H as _ <- _; constructor|].
+      apply (IH _ _ _ _ H).
+Qed.
+
+(* C07 with the PDU-length rule: if the decoder in use rejects PDUs whose length is not the one
+   their function code defines, every delivery is an MBAP frame of the input with a consistent
+   length field AND a PDU of the defined length *)
+Theorem tcp_recv_gate_len dec server c st chunk st' ds o :
+  (forall pdu, is_msg (dec pdu) = true -> pdu_len_ok server pdu = true) ->
+  wfb (t_buf st) = true -> wfb chunk = true ->
+  t_recv base tcp dec c st chunk = (st', ds, o) ->
+  Forall (fun d => tcp_justified (t_buf st ++ chunk) d /\ pdu_len_ok server (d_pdu d) = true) ds.
+Proof.
+  intros Hdec H1 H2 H. pose proof (tcp_recv_gate dec c st chunk st' ds o H1 H2 H) as G.
+  unfold t_recv in H. apply tcp_loop_msgs in H.
+  rewrite Forall_forall in *. intros d Hd. split; [apply G, Hd|apply Hdec, H, Hd].
+Qed.
